@@ -57,7 +57,10 @@ Definition raise (e : exn) (l : list Z) : obs := mkObs (Raise e) l [] None.
    separately are equal, of the same type, and still two things a list can permute); its value part is v. *)
 Definition vpart (a : Z) : Z := if 1000 <=? a then a mod 1000 else a.
 Definition canon_atom (a : Z) : Z := let v := vpart a in if (300 <=? v) && (v <? 400) then v - 300 else v.
-Definition py_eq (a b : Z) : bool := canon_atom a =? canon_atom b.
+(* list.index / list.remove / == between lists compare with `x is y or x == y`: the same object always matches, even one
+   that is not equal to itself (value atom 500: a float NaN) *)
+Definition is_nan (a : Z) : bool := vpart a =? 500.
+Definition py_eq (a b : Z) : bool := (a =? b) || (negb (is_nan a) && (canon_atom a =? canon_atom b)).
 
 (* the ordering list.sort uses: the items themselves, or their keys (equal keys keep their order) *)
 Definition sort_key (m x : Z) : Z := if m =? 0 then x else x mod m.
